@@ -674,3 +674,115 @@ func encoderVar(p *Program, f *FuncInfo, v types.Object) bool {
 	}
 	return true
 }
+
+func init() {
+	register(&Rule{ID: "PTR-2", Doc: "object names enter a JSON Pointer only through the escaping routine: in every jsontext function that builds a pointer (stores to pointerSuffixError.reversePointer, state.appendStackPointer, Pointer.AppendToken) each variadic append of non-constant bytes either copies from the already-escaped reversePointer or is the argument of appendEscapePointerName", Run: rulePTR2})
+}
+
+func rulePTR2(c *Ctx) {
+	p := c.P
+	rp := p.Field("jsontext", "pointerSuffixError", "reversePointer")
+	esc := p.Lookup("jsontext", "appendEscapePointerName")
+	if rp == nil || esc == nil {
+		c.Undecide("jsontext.pointerSuffixError.reversePointer / appendEscapePointerName", "missing")
+		return
+	}
+	var subjects []*FuncInfo
+	for _, f := range p.FuncsIn("jsontext") {
+		if f.Decl == nil || f.Body() == nil {
+			continue
+		}
+		if f.Name == "jsontext.(state).appendStackPointer" || f.Name == "jsontext.(Pointer).AppendToken" {
+			subjects = append(subjects, f)
+			continue
+		}
+		uses := false
+		InspectNoLit(f.Body(), func(n ast.Node) bool {
+			if e, ok := n.(ast.Expr); ok && SelField(f.Info(), e) == rp {
+				uses = true
+			}
+			return !uses
+		})
+		if uses {
+			subjects = append(subjects, f)
+		}
+	}
+	if !c.Floor("pointer-building functions", len(subjects), 4) {
+		return
+	}
+	for _, f := range subjects {
+		info := f.Info()
+		// locals that only ever hold (slices of) reversePointer
+		fromRP := func(e ast.Expr) bool { return false }
+		var rpLocal map[types.Object]bool
+		isRP := func(e ast.Expr) bool {
+			for {
+				e = ast.Unparen(e)
+				if sl, ok := e.(*ast.SliceExpr); ok {
+					e = sl.X
+					continue
+				}
+				break
+			}
+			if SelField(info, e) == rp {
+				return true
+			}
+			if v := IdentObj(info, e); v != nil && rpLocal[v] {
+				return true
+			}
+			return false
+		}
+		fromRP = isRP
+		// greatest fixpoint: start from all byte-slice locals, drop those with a definition that is not (a slice of) reversePointer
+		rpLocal = map[types.Object]bool{}
+		InspectNoLit(f.Body(), func(n ast.Node) bool {
+			if as, ok := n.(*ast.AssignStmt); ok {
+				for _, l := range as.Lhs {
+					if v := IdentObj(info, l); v != nil && isByteSlice(v.Type()) {
+						if vv, isVar := v.(*types.Var); isVar && !vv.IsField() {
+							rpLocal[v] = true
+						}
+					}
+				}
+			}
+			return true
+		})
+		for changed := true; changed; {
+			changed = false
+			for v := range rpLocal {
+				defs := defsOf(info, f.Body(), v)
+				ok := len(defs) > 0
+				for _, d := range defs {
+					if !fromRP(d) {
+						ok = false
+					}
+				}
+				if !ok {
+					delete(rpLocal, v)
+					changed = true
+				}
+			}
+		}
+		bad := ""
+		n := 0
+		InspectNoLit(f.Body(), func(nd ast.Node) bool {
+			call, ok := nd.(*ast.CallExpr)
+			if !ok || !IsBuiltin(info, call, "append") || !call.Ellipsis.IsValid() || len(call.Args) != 2 {
+				return true
+			}
+			n++
+			src := call.Args[1]
+			if _, isC := ConstStr(info, src); isC {
+				return true
+			}
+			if isRP(src) {
+				return true
+			}
+			if bad == "" {
+				bad = fmt.Sprintf("raw bytes `%s` appended into a JSON Pointer at %s without appendEscapePointerName (a name containing '/' or '~' would corrupt the pointer)", exprString(src), p.Position(call.Pos()))
+			}
+			return true
+		})
+		c.Oblige("escaped-only:"+f.Name, f.Pos(), bad == "", bad)
+	}
+}
